@@ -79,6 +79,10 @@ func main() {
 		clusterChild()
 		return
 	}
+	if r.Replay != "" {
+		replay(r)
+		return
+	}
 	scratch := common.Scratch("c09")
 	defer os.RemoveAll(scratch)
 	var mu sync.Mutex
@@ -161,4 +165,34 @@ func main() {
 		"operations without a response stay open (Puts) or are dropped (Gets)",
 		"sim histories use commit numbers as time; per-link FIFO delivery as the property's quantifier says",
 	})
+}
+
+// replay re-judges the stored client history with the same oracles.
+func replay(r *common.Run) {
+	key, _, wit, err := r.LoadReplay()
+	if err != nil {
+		fmt.Println("cannot read replay file:", err)
+		os.Exit(3)
+	}
+	var ops []linz.Op
+	if wit["setting"] == "cluster" || wit["setting"] == "tcp" {
+		_ = common.Remarshal(wit["history"], &ops)
+	} else {
+		var h []adapters.HistOp
+		_ = common.Remarshal(wit["history"], &h)
+		ops = toOps(h)
+	}
+	if len(ops) > 0 {
+		switch linz.Classify(ops, 120*time.Second) {
+		case linz.VAtLeastOnce:
+			r.Report("C09:retried-put-applied-twice", "stored history: not linearizable; linearizable against the at-least-once register", wit)
+		case linz.VIllegal:
+			r.Report("C09:not-linearizable", "stored history is not linearizable", wit)
+		case linz.VUnknown:
+			r.Inconclusive("porcupine timeout on the stored history")
+		}
+	} else {
+		fmt.Println("replay file holds no history (key " + key + "): monitor violations of simulated runs are reproduced by re-running the check with the same VERIF_SEED")
+	}
+	r.FinishReplay(key)
 }
